@@ -84,7 +84,8 @@ pub fn judge_plain_k(m: &dyn Model, cfg: &Cfg, out: &Out, primal: Option<isize>,
     let opt = m.opt();
     let target = match (opt, primal) { (Some(o), Some(p)) => Some(o.max(p)), (None, Some(p)) => Some(p), (o, None) => o };
     let p1 = if primal.is_some() { "C14" } else if par { "C03" } else { "C01" };
-    let mc = if par { format!("par1:{}", model_class(m)) } else { model_class(m) };
+    let mc = model_class(m);
+    let sp = if par { "par1" } else { "seq" };
     if out.hang {
         f.push(Finding { prop: "C04", sig: format!("par1:hang:{:?}:{}", cfg.dd, if cfg.cache { "cache" } else { "nocache" }).to_lowercase(), what: "parallel maximize() with one worker did not return within 10 s (worker parked for ever)".to_string() });
         if primal.is_none() { f.push(Finding { prop: "C03", sig: format!("par1:hang:{:?}:{}", cfg.dd, if cfg.cache { "cache" } else { "nocache" }).to_lowercase(), what: "parallel maximize() with one worker did not return within 10 s".to_string() }); }
@@ -93,19 +94,19 @@ pub fn judge_plain_k(m: &dyn Model, cfg: &Cfg, out: &Out, primal: Option<isize>,
     }
     if let Some(p) = &out.panicked {
         let site = if p.contains("sequential.rs") { "sequential.rs" } else if p.contains("no_duplicate.rs") { "no_duplicate.rs" } else if p.contains("clean.rs") { "clean.rs" } else if p.contains("pooled.rs") { "pooled.rs" } else { "other" };
-        f.push(Finding { prop: p1, sig: format!("seq:panic:{}:{}:{}", site, if cfg.nodup { "nodup" } else { "simple" }, mc), what: format!("maximize() panicked: {}", p) });
-        if m.has_long_arcs() && primal.is_none() { f.push(Finding { prop: "C15", sig: format!("seq:panic:{}:{}", site, cfg.short()), what: format!("maximize() panicked: {}", p) }); }
+        f.push(Finding { prop: p1, sig: format!("{}:panic:{}:{}:{}", sp, site, if cfg.nodup { "nodup" } else { "simple" }, mc), what: format!("maximize() panicked: {}", p) });
+        if m.has_long_arcs() && primal.is_none() { f.push(Finding { prop: "C15", sig: format!("{}:panic:{}:{}", sp, site, cfg.short()), what: format!("maximize() panicked: {}", p) }); }
         return f;
     }
     if out.fuel_out {
-        let sig = format!("seq:nonterm:{:?}:{}:{}", cfg.dd, if cfg.cache { "cache" } else { "nocache" }, mc).to_lowercase();
+        let sig = format!("{}:nonterm:{:?}:{}:{}", sp, cfg.dd, if cfg.cache { "cache" } else { "nocache" }, mc).to_lowercase();
         f.push(Finding { prop: p1, sig: sig.clone(), what: format!("maximize() did not terminate within the fuel bound ({} polls)", out.polls) });
         if m.has_long_arcs() && primal.is_none() { f.push(Finding { prop: "C15", sig, what: format!("maximize() did not terminate within the fuel bound ({} polls)", out.polls) }); }
         return f;
     }
-    if !out.is_exact { f.push(Finding { prop: p1, sig: format!("seq:inexact:{}", mc), what: "uninterrupted maximize() reported is_exact = false".to_string() }); }
+    if !out.is_exact { f.push(Finding { prop: p1, sig: format!("{}:inexact:{}", sp, mc), what: "uninterrupted maximize() reported is_exact = false".to_string() }); }
     if out.best_value != target {
-        let sig = format!("seq:wrongopt:{:?}:{}:{}:{}", cfg.dd, if cfg.cache { "cache" } else { "nocache" }, if cfg.nodup { "nodup" } else { "simple" }, mc).to_lowercase();
+        let sig = format!("{}:wrongopt:{:?}:{}:{}:{}", sp, cfg.dd, if cfg.cache { "cache" } else { "nocache" }, if cfg.nodup { "nodup" } else { "simple" }, mc).to_lowercase();
         let what = format!("best value {:?} but the optimum is {:?} (primal {:?})", out.best_value, opt, primal);
         f.push(Finding { prop: p1, sig: sig.clone(), what: what.clone() });
         if m.has_long_arcs() && primal.is_none() { f.push(Finding { prop: "C15", sig: sig.clone(), what: what.clone() }); }
